@@ -380,6 +380,112 @@ def job_counts(_):
     return [res(name, REFUTED, backend="native", strength="bounded", replayed=True, replay=dict(counts=counts, observed=str(got), expected=str(exp)))]
 
 
+def set_partitions(n):
+    """all partitions of range(n) as label lists (restricted growth strings)"""
+    def rec(i, labels, mx):
+        if i == n:
+            yield list(labels)
+            return
+        for l in range(mx + 2):
+            yield from rec(i + 1, labels + [l], max(mx, l))
+    if n == 0:
+        yield []
+        return
+    yield from rec(1, [0], 0)
+
+
+def job_counts_proved(k):
+    """decode_counts against its contract for ALL counts and ALL thresholds: k readings (k fixed), every partition of them into classes of equal
+    decoded value (decode_output is replaced by its contract: it returns the class value), counts and discard_lower arbitrary integers.
+      ensures  discard_lower None or 0:  result = { v: sum of the counts of the readings decoding to v }
+               otherwise:                result = the same map restricted to the values whose SUM is >= discard_lower"""
+    import z3
+    from qlasskit.qcircuit.qcircuitwrapper import QCircuitWrapper
+    from qlasskit.qlassfun import QlassF
+    from .. import pyvc
+    out = []
+    for labels in set_partitions(k):
+        for mode in ("none", "symbolic"):
+            t0 = time.time()
+            name = f"C05.decode_counts.contract[{k} readings, classes {''.join(map(str, labels))}, discard_lower {mode}]"
+            readings = [format(i, "03b") + "x" for i in range(k)]          # opaque to the code: only decode_output may look at them
+            value_of = {r: ("value", l) for r, l in zip(readings, labels)}
+            eng = pyvc.Engine(modular=True)
+
+            def dec(vc, f, args, kwargs):
+                return value_of[args[0]]
+            eng.contracts[QlassF.decode_output] = dec
+            eng.contracts[QCircuitWrapper.decode_output] = dec
+            cs = [z3.Int(f"c{i}") for i in range(k)]
+            d = z3.Int("d")
+            obj = object.__new__(QlassF)
+
+            def mkcall(vc):
+                counts = {r: pyvc.SymZ(c) for r, c in zip(readings, cs)}
+                return (QCircuitWrapper.decode_counts, [obj, counts] + ([pyvc.SymZ(d)] if mode == "symbolic" else []), {})
+            try:
+                paths = eng.explore(mkcall)
+            except pyvc.Unsupported as ex:
+                out.append(res(name, UNDECIDED, strength="proved-class", backend="pyvc", detail=f"Unsupported: {ex}"))
+                continue
+            sums = {}
+            for r, l, c in zip(readings, labels, cs):
+                sums[("value", l)] = sums.get(("value", l), 0) + c
+            bad = None
+            npaths = 0
+            for p_ in paths:
+                npaths += 1
+                if p_.kind != "return" or not isinstance(p_.value, dict):
+                    bad = dict(observed=f"{p_.kind}: {p_.value!r}"[:300])
+                    break
+                goal = []
+                for v, sm in sums.items():
+                    keep = z3.BoolVal(True) if mode == "none" else z3.Or(d == 0, sm >= d)
+                    if v in p_.value:
+                        got = p_.value[v]
+                        goal.append(z3.And(keep, (got.z if isinstance(got, pyvc.SymZ) else z3.IntVal(got)) == sm))
+                    else:
+                        goal.append(z3.Not(keep))
+                if any(v not in sums for v in p_.value):
+                    goal.append(z3.BoolVal(False))
+                st, model, secs, backend = pyvc.solve(p_.hyps(), z3.And(*goal) if goal else z3.BoolVal(True), 10000)
+                if st != PROVED:
+                    cv = {str(c): model.eval(c, model_completion=True).as_long() for c in cs} if model is not None else None
+                    dv = model.eval(d, model_completion=True).as_long() if (model is not None and mode == "symbolic") else None
+                    bad = dict(status=st, counts=cv, discard_lower=dv, classes=labels, result=str(p_.value)[:300])
+                    break
+            if bad is None and npaths:
+                out.append(res(name, PROVED, strength="proved-class", backend="z3", secs=time.time() - t0, paths=npaths))
+                continue
+            # replay natively on the real method with a stub decode_output
+            replayed, rp = False, None
+            if bad and bad.get("counts") is not None:
+                class Stub(QCircuitWrapper):
+                    def __init__(self):
+                        pass
+
+                    def decode_output(self, e):
+                        return value_of[e]
+                cn = {r: bad["counts"][f"c{i}"] for i, r in enumerate(readings)}
+                try:
+                    got = Stub().decode_counts(cn, bad["discard_lower"]) if mode == "symbolic" else Stub().decode_counts(cn)
+                except Exception as ex:  # noqa
+                    got = f"raises {type(ex).__name__}: {ex}"
+                exp = {}
+                for r, c in cn.items():
+                    exp[value_of[r]] = exp.get(value_of[r], 0) + c
+                if mode == "symbolic" and bad["discard_lower"]:
+                    exp = {v: c for v, c in exp.items() if c >= bad["discard_lower"]}
+                replayed = got != exp
+                rp = dict(counts={r: c for r, c in cn.items()}, decoded_value_of_each_reading={r: str(v) for r, v in value_of.items()}, discard_lower=bad["discard_lower"],
+                          observed=str(got), expected=str(exp))
+            status = REFUTED if (bad and bad.get("status") == REFUTED) or (bad and "observed" in bad) else UNDECIDED
+            if status == REFUTED and bad.get("counts") is not None and not replayed:
+                status = UNDECIDED      # the counter-model does not replay on the real code: engine problem, not a violation
+            out.append(res(name, status, strength="proved-class", backend="z3", replayed=replayed, replay=rp, detail=str(bad)[:500], solver_output=str(bad)[:300]))
+    return out
+
+
 def _dispatch(j):
     f, a = j
     return f(a)
@@ -393,6 +499,8 @@ def run(tier, only=None):
     rep = Report("C05", tier, "proof", f"./check C05 --tier {tier}")
     jobs = [(job_sig, s) for s in signature_shapes(tier)]
     jobs.append((job_counts, None))
+    for k in ((1, 2, 3) if tier == "quick" else (1, 2, 3, 4)):
+        jobs.append((job_counts_proved, k))
     for origin, src in family(tier, seed=0):
         if origin != "outside":
             jobs.append((job_e2e, (origin, src)))
